@@ -570,6 +570,9 @@ var WebKeyNames = map[string]Key{
 	"Center":     KeyCenter,
 	"PgDn":       KeyPgDn,
 	"PgUp":       KeyPgUp,
+	"PageDown":   KeyPgDn, // the names browsers actually report
+	"PageUp":     KeyPgUp,
+	"Help":       KeyHelp,
 	"Clear":      KeyClear,
 	"Exit":       KeyExit,
 	"Cancel":     KeyCancel,
